@@ -1,19 +1,30 @@
 from vf.core import Property, Harness, Unit
 
-U = Unit('att_e14', description='bluetoe::server<> with nine advertising related declarations: no name + service lists generated from the services '
-         '(16 and 128 bit, GAP service appended); server_name of 36 / 26 / 10 / 6 / 4 characters; advertise_appearance with and without appearance option; '
-         'list_of_16_bit_service_uuids with 12 and 1 UUIDs, list_of_128_bit_service_uuids with 0 and 2 UUIDs, no_list_of_service_uuids; '
-         'peripheral_connection_interval_range with and without values; custom_advertising_data + custom_scan_response_data; '
-         'runtime_custom_advertising_data + runtime_custom_scan_response_data')
-
 NCFG = 9
-CUSTOM = (5, 6)
+CFG_DESCRIPTION = {
+    0: 'no name option; services 0x1822 + one 128 bit service + GAP service: service lists generated from the services',
+    1: 'server_name of 36 characters, no_list_of_service_uuids',
+    2: 'server_name "Test", advertise_appearance + appearance::location_pod, list_of_16_bit_service_uuids with 12 UUIDs, list_of_128_bit_service_uuids<>, peripheral_connection_interval_range<0x10,0x20>',
+    3: 'server_name "Thermo", list_of_16_bit_service_uuids<0x1809>, list_of_128_bit_service_uuids with 2 UUIDs',
+    4: 'no name, 128 bit service, no GAP service, advertise_appearance (appearance unknown), peripheral_connection_interval_range<>',
+    5: 'custom_advertising_data (12 octets) + custom_scan_response_data (9 octets)',
+    6: 'runtime_custom_advertising_data + runtime_custom_scan_response_data',
+    7: 'server_name of 26 characters, service lists generated from the services',
+    8: 'server_name of 10 characters, appearance without advertise_appearance, service lists generated from the services (128 bit list does not fit)',
+}
+UNITS = {n: Unit('att_e14_%d' % n, shim='shims/att_e14.cpp', flags=['-DE14_PART=%d' % n], description='bluetoe::server<> ' + d)
+         for n, d in CFG_DESCRIPTION.items()}
+
+GROUP = 4          # buffer sizes per case
 
 
-def cases(tier):
-    cs = [{'CFG': c, 'MODE': 0, 'SIZE': s} for c in range(NCFG) for s in range(32)]
-    cs += [{'CFG': c, 'MODE': 1, 'SIZE': 0} for c in CUSTOM]
-    return cs
+def cases_for(cfg):
+    def cases(tier):
+        rtlens = [0]
+        if cfg == 6:
+            rtlens = [35] if tier == 'quick' else [0, 12, 31, 35]
+        return [{'CFG': cfg, 'LO': lo, 'CNT': GROUP, 'RTLEN': r} for r in rtlens for lo in range(0, 32, GROUP)]
+    return cases
 
 
 # development knob (mutation testing): VF_CASE_FILTER="c['CFG'] == 1" restricts the cases; never set in a real run
@@ -25,18 +36,18 @@ def _filtered(f):
 
 PROPERTY = Property(
     'C14',
-    [Harness('c14_adv', U, 'harness/c14_adv.c', _filtered(cases), unwind=42, timeout=300,
-             description='advertising_data() and scan_response_data() of nine server declarations into exact-size buffers of 0..31 bytes; the result is parsed by a '
-                         'reference AD structure parser and compared with a hand written table of the declared name / appearance / UUID lists / interval range / custom data',
-             bounds='9 server declarations x buffer sizes 0..31 (case split, exact-size heap objects); run time custom data: all contents, lengths 0..35; '
-                    'custom data additionally with a symbolic buffer size 0..31')],
+    [Harness('c14_adv_%d' % n, UNITS[n], 'harness/c14_adv.c', _filtered(cases_for(n)), unwind=42, timeout=600, diff_iters=50,
+             description='advertising_data() and scan_response_data() of declaration %d into exact-size buffers of 0..31 bytes; the result is parsed by a '
+                         'reference AD structure parser and compared with a hand written table of the declared name / appearance / UUID lists / interval range / custom data' % n,
+             bounds='buffer sizes 0..31 (4 concrete sizes per case, exact-size heap objects)' + ('; run time custom data: all contents, lengths 35 (quick) / 0, 12, 31, 35 (thorough)' if n == 6 else ''))
+     for n in range(NCFG)],
     functions=['server::advertising_data', 'server::advertising_data_impl(auto_advertising_data)', 'server::scan_response_data', 'server::scan_response_data_impl',
                'details::copy_name', 'list_of_16_bit_service_uuids::advertising_data', 'list_of_128_bit_service_uuids::advertising_data', 'details::uuid_128_writer',
                'details::default_list_of_16_bit_service_uuids / default_list_of_128_bit_service_uuids', 'no_list_of_service_uuids', 'advertise_appearance::advertising_data',
                'peripheral_connection_interval_range::advertising_data', 'custom_advertising_data / custom_scan_response_data',
                'runtime_custom_advertising_data / runtime_custom_scan_response_data (set + get + dirty flag)', 'server::advertising_or_scan_response_data_has_been_changed'],
-    bounds='nine server declarations; every buffer size 0..31; run time custom data of 0..35 arbitrary bytes',
-    assumptions=['MODE 1: the custom data declared / set by the application is itself a well-formed sequence of AD structures (the application\'s part of the contract)',
+    bounds='nine server declarations; every buffer size 0..31; run time custom data of arbitrary content with 35 (quick) / 0, 12, 31, 35 (thorough) octets',
+    assumptions=['custom data (declarations 5, 6): the custom data declared / set by the application is itself a well-formed sequence of AD structures (the application\'s part of the contract)',
                  'trailing zero octets behind a zero length octet are accepted as early termination (Core Spec Vol 3 Part C 11); bluetoe appends 00 00 on purpose',
                  'an absent name / UUID list (no room) is accepted; no order of the AD structures is demanded; the scan response need not carry flags'],
     explanation='for every declaration and every buffer size the real functions write into a heap object of exactly the given size (any write beyond it fails a pointer check '
